@@ -434,7 +434,12 @@ func (g *DocGen) str() string {
 	if g.emptyOK && g.r.Chance(3) {
 		return ""
 	}
-	return g.r.Pick(words) + strconv.Itoa(g.r.Intn(1000))
+	s := g.r.Pick(words) + strconv.Itoa(g.r.Intn(1000))
+	if g.r.Chance(8) {
+		// significant white space around a value
+		s = g.r.Pick([]string{" ", "  ", "\t", "\n", ""}) + s + g.r.Pick([]string{" ", "\n", "\t ", ""})
+	}
+	return s
 }
 
 func (g *DocGen) node(td *TypeDef, depth int, forceID bool) *ANode {
